@@ -87,3 +87,50 @@ Definition check_c10s (c : c10s_case) : list string :=
   | _, None => ["viol:split-panics"]
   | _, _ => ["mismatch:model-split-failed"]
   end.
+
+(* ---- end-to-end stage: Context.BuildLayers with and without a layering block ------------
+   [e_single]: the one layer of the build without `layering`; [e_layers]: the
+   layers of the build of the same configuration with budget [e_budget]; both
+   untarred by the harness.  etc/apko.json embeds the configuration, layering
+   request included, so its content and size are not compared. *)
+Record c10e_case := { e_budget : Z; e_single : list entry; e_layers : list (list entry) }.
+
+Definition apko_json : path := ["etc"; "apko.json"].
+Definition blank_cfg (e : entry) : entry :=
+  if path_eqb (e_path e) apko_json then
+    {| e_path := e_path e; e_kind := e_kind e; e_mode := e_mode e; e_uid := e_uid e; e_gid := e_gid e;
+       e_uname := e_uname e; e_gname := e_gname e; e_link := e_link e; e_devmaj := e_devmaj e;
+       e_devmin := e_devmin e; e_xattrs := e_xattrs e; e_mtime := e_mtime e; e_mnsec := e_mnsec e;
+       e_cid := 0; e_size := 0 |}
+  else e.
+
+(* diagnosis only: the paths at which the last entry written by the layers is not the single layer's entry *)
+Definition last_entry (L : list entry) (p : path) : option entry :=
+  find (fun e => path_eqb (e_path e) p) (rev L).
+Definition diff_paths (single flat : list entry) : list path :=
+  flat_map (fun e => match last_entry flat (e_path e) with
+                     | Some o => if entry_eqb e o then [] else [e_path e]
+                     | None => [e_path e]
+                     end) single ++
+  flat_map (fun o => match last_entry single (e_path o) with Some _ => [] | None => [e_path o] end) flat.
+
+Definition check_c10e (c : c10e_case) : list string :=
+  let single := map blank_cfg (e_single c) in
+  let layers := map (map blank_cfg) (e_layers c) in
+  (match extract (List.concat layers), extract single with
+   | Ok a, Ok b =>
+       if forest_eqb (canon_forest a) (canon_forest b) then []
+       else match diff_paths single (List.concat layers) with
+            | [p] => if path_eqb p ["etc"; "apk"; "repositories"]
+                     then ["viol:flatten-differs/etc-apk-repositories"]
+                     else ["viol:flatten-differs-from-single-layer"]
+            | _ => ["viol:flatten-differs-from-single-layer"]
+            end
+   | Ok _, _ => ["viol:single-layer-not-extractable"]
+   | _, _ => ["viol:layers-not-extractable-in-order"]
+   end) ++
+  tag_if (negb (forallb (wellformed_from []) layers)) "viol:layer-parent-dir-missing-or-duplicate-path" ++
+  (if (e_budget c =? 0)%Z then
+     tag_if (Nat.ltb 1 (List.length layers)) "viol:group-count-exceeds-budget/budget-zero" ++
+     tag_if (Nat.ltb 2 (List.length layers)) "viol:layer-count-exceeds-budget-plus-top"
+   else tag_if (negb (Z.of_nat (List.length layers) <=? e_budget c + 1)%Z) "viol:layer-count-exceeds-budget-plus-top").
